@@ -84,6 +84,9 @@ type Bank struct {
 	profID uint64
 }
 
+// PanicBase + 3*k + e: a call (size / encode / decode) on the k-th definition whose own InitDefault panics.
+const PanicBase = uint64(1) << 36
+
 // WrapBase + 2*k + n: C09's long-run operation on the k-th definition with required fields (see execWrap).
 const WrapBase = uint64(1) << 40
 
@@ -177,6 +180,8 @@ const (
 
 func isFocus(id uint64) bool { return id >= FocusBase && id < SysRejected }
 
+func isPanicOp(id uint64) bool { return id >= PanicBase && id < WrapBase }
+
 // pick returns the definition operation id works on.
 func (b *Bank) pick(id uint64, r *model.Rng) *model.StructDef {
 	s := b.pickValid(r) // always drawn: the rest of the operation's stream does not depend on the kind of id
@@ -244,6 +249,15 @@ func (b *Bank) Op(id uint64) (op OpSpec) {
 	op.Budget = budgets[r.Intn(len(budgets))]
 	op.Foreign = r.Chance(1, 3)
 	roll := r.Intn(100)
+	if isPanicOp(id) {
+		if pan := b.C.Panicky(); len(pan) > 0 {
+			k := int(id - PanicBase)
+			op.Type = pan[(k/3)%len(pan)].Name
+			op.Kind = []string{"size", "enc", "dec"}[k%3]
+			op.Buf, op.Fault = "generous", "none"
+			return op
+		}
+	}
 	switch b.Prof {
 	case "C04":
 		// the deciding operation is the size/encode plan; the rest is history context
@@ -774,6 +788,7 @@ func deriveC08(rs *RunSpec, b *Bank, r *model.Rng) {
 	for _, sd := range b.rej {
 		rejIDs = append(rejIDs, byType[sd.Name]...)
 	}
+	npan := len(c.Panicky())
 	var steady []uint64 // operations on types used in earlier rounds
 	rs.Rounds = 6 + r.Intn(7)
 	rs.Sched.StartAt = make([]int64, rs.Tasks*rs.Rounds)
@@ -828,6 +843,11 @@ func deriveC08(rs *RunSpec, b *Bank, r *model.Rng) {
 				}
 				if len(rejIDs) > 0 && i > 0 && r.Chance(1, 12) {
 					st.Op = rejIDs[r.Intn(len(rejIDs))]
+				}
+				if npan > 0 && i > 0 && r.Chance(1, 25) {
+					// a call that fails with the user's own panic in the middle of everybody else's first uses: whatever
+					// frugal held at that moment (the registration lock) must have been released
+					st.Op = PanicBase + uint64(r.Intn(3*npan))
 				}
 				rs.Hist = append(rs.Hist, st)
 			}
